@@ -442,7 +442,34 @@ def rule_cost(ctx, rules=('R01.a', 'R01.b', 'R01.c', 'R01.e')):
     C = W.attr_term(ip, pr.attrs['directCorr'].attrs['data'])
     Om = W.attr_term(ip, pr.attrs['omega'].attrs['data'])
     bad = []
-    if any(t is None or P.is_pw(t) for t in (H, C, Om)):
+    if H is not None and P.is_pw(H) and not any(t is None or P.is_pw(t) for t in (C, Om)) and L.nonspatial_split(ip, H):
+        # the stored total correlation depends on a case split over densities / scalars: the PRISM equation must hold in
+        # every case; the first case where it does not is reported
+        ps_, fs_ = P.conds(H)
+        Cn, On = N.sym('Cmat'), N.sym('Omat')
+        ip.declare('Cmat', 'tensor', symmetric=True)
+        ip.declare('Omat', 'tensor', symmetric=True)
+        ck, ok = N.reg(C), N.reg(Om)
+        for v_ in P.valuations(ps_, fs_):
+            leaf = P.at(H, v_)
+            Hs = _replace_terms(leaf * N.sym('rho_pair'), {ck: Cn, ok: On})
+            why = None
+            if 'rho_pair' in Hs.symbols():
+                why = 'total correlation is not the matrix expression divided entrywise by the pair density: %s' % N.show(
+                    _replace_terms(leaf, {ck: Cn, ok: On}))[:200]
+            else:
+                lhs = cn.series(Hs)
+                rhs = cn.series(N.fn('dot', N.fn('dot', On, Cn), On + Hs))
+                diff = _series_diff(lhs, rhs, cn.D - 2)
+                if diff:
+                    why = 'H = Omega C (Omega + H) fails at word %s: left %s, right %s' % diff
+            if why:
+                bad.append('when %s: %s' % (P.show_val(v_), why))
+                break
+        if not bad:
+            ctx.holds('R01.c', construct, 'rho_pair*totalCorr satisfies H = Omega C (Omega + H) in each of the cases the stored value '
+                      'is split on', m.loc())
+    elif any(t is None or P.is_pw(t) for t in (H, C, Om)):
         ctx.undecided('R01.c', construct, 'arrays after cost are not plain terms', m.loc())
     else:
         sp = {nm: getattr(pr.attrs[nm].attrs.get('space'), 'v', None) for nm in ('totalCorr', 'directCorr', 'omega')}
